@@ -18,6 +18,7 @@ func All() map[string]orch.Property {
 	for _, p := range []orch.Property{
 		&C01{},
 		&C03{},
+		&C07{},
 		&C10{},
 		&C11{},
 	} {
